@@ -512,6 +512,24 @@ func (sc *Dispatch) Run(t *core.Tape, env *Env) (any, []core.Violation) {
 		}
 		opts = append(opts, json.WithUnmarshalers(j))
 	}
+	if p.Side != "marshal" {
+		for _, b := range p.Beh {
+			if b.Kind == peers.BNestedThenReset {
+				// the nested UnmarshalDecode made by that peer meets a function that
+				// declines without touching the decoder; the enclosing user call is
+				// still in progress afterwards (Reset must keep panicking)
+				decl := json.UnmarshalFromFunc(func(dec *jsontext.Decoder, v *peers.NestedStr) error { return errors.ErrUnsupported })
+				if len(ulist) > 0 {
+					last := opts[len(opts)-1]
+					u, _ := json.GetOption(last, json.WithUnmarshalers)
+					opts[len(opts)-1] = json.WithUnmarshalers(json.JoinUnmarshalers(u, decl))
+				} else {
+					opts = append(opts, json.WithUnmarshalers(decl))
+				}
+				break
+			}
+		}
+	}
 
 	// cache history
 	for _, w := range p.Warm {
